@@ -45,6 +45,10 @@ type c14Case struct {
 	// SecondChannel: the connection carries a logical channel besides
 	// channel 0; its consumer has to learn about the failure as well
 	SecondChannel bool `json:"second_channel,omitempty"`
+	// CloseAck (with SecondChannel, fault at a packet boundary): the last
+	// packet before the fault is a header-only TDS_BUF_CLOSE packet for the
+	// second channel (the server confirming that channel's teardown)
+	CloseAck bool `json:"close_packet_for_second_channel_before_fault,omitempty"`
 }
 
 func c14Err(style string) error {
@@ -53,6 +57,11 @@ func c14Err(style string) error {
 		return io.EOF
 	case "reset":
 		return xport.ErrReset
+	case "unexpected-eof":
+		// what crypto/tls reports for a connection cut without close_notify
+		return io.ErrUnexpectedEOF
+	case "wrapped-eof":
+		return fmt.Errorf("transport: %w", io.EOF)
 	}
 	return xport.ErrTimeout
 }
@@ -82,6 +91,29 @@ func readerQuiescent(gid int64, d time.Duration) (string, bool) {
 	}
 }
 
+// c14Quiesce is readerQuiescent for a transport that has failed: besides
+// "gone" and "parked on a queue" the reader can come to rest in a third way,
+// reading the failed transport again and again without ever reporting it.
+// That is decided by counting, not by time: the transport has answered 5000
+// Read calls with its terminal error (the tree stops after about a dozen,
+// when the error queue is full).
+func c14Quiesce(tr *xport.Transport, gid int64, d time.Duration) (string, bool) {
+	deadline := time.Now().Add(d)
+	for {
+		if st, ok := readerQuiescent(gid, 0); ok {
+			return st, true
+		}
+		if tr.TermReads() > 5000 {
+			return "reading the failed transport again and again (more than 5000 reads answered with the error)", true
+		}
+		if time.Now().After(deadline) {
+			st, _ := readerQuiescent(gid, 0)
+			return st, false
+		}
+		time.Sleep(100 * time.Microsecond)
+	}
+}
+
 func c14Run(c *Ctx, cs c14Case, ref []string) {
 	r := c.R
 	r.Eval(1)
@@ -98,9 +130,11 @@ func c14Run(c *Ctx, cs c14Case, ref []string) {
 	}
 	defer k.teardown()
 	var ch1 *tds.Channel
+	var ch1ID uint16
 	if cs.SecondChannel {
 		k.tr.OnWrite = func(rec xport.WriteRec) {
 			if len(rec.Data) == 8 && rec.Data[0] == byte(tds.TDS_BUF_SETUP) {
+				ch1ID = uint16(rec.Data[4])<<8 | uint16(rec.Data[5])
 				k.tr.Feed(xport.Header{Type: byte(tds.TDS_BUF_PROTACK), Status: xport.EOM, Length: 8, Channel: uint16(rec.Data[4])<<8 | uint16(rec.Data[5])}.Bytes())
 			}
 		}
@@ -144,6 +178,20 @@ func c14Run(c *Ctx, cs c14Case, ref []string) {
 		}
 	} else {
 		k.tr.Feed(prefix)
+	}
+	closeAck := false
+	if cs.CloseAck && ch1 != nil {
+		at := 0
+		for _, p := range pkts {
+			if at == cs.Offset {
+				break
+			}
+			at += len(p)
+		}
+		if at == cs.Offset { // the prefix ends at a packet boundary
+			closeAck = true
+			k.tr.Feed(xport.Header{Type: byte(tds.TDS_BUF_CLOSE), Status: xport.EOM, Length: 8, Channel: ch1ID}.Bytes())
+		}
 	}
 	k.tr.Terminate(c14Err(cs.Style), cs.Style == "eof-with-data")
 	// where is the fault relative to packets and packages?
@@ -189,7 +237,10 @@ func c14Run(c *Ctx, cs c14Case, ref []string) {
 	}
 	r.SetAdd("reader_states_at_fault", stClass+"/"+cs.Style)
 	if cs.Offset > 0 && cs.Offset < len(stream) {
-		r.Distinct(fmt.Sprintf("%s|%v|%d|%s|%d|%v|%v", cs.Resp, cs.Cuts, cs.Offset, cs.Style, cs.ReadTimeout, cs.Prelude, cs.SecondChannel))
+		r.Distinct(fmt.Sprintf("%s|%v|%d|%s|%d|%v|%v|%v", cs.Resp, cs.Cuts, cs.Offset, cs.Style, cs.ReadTimeout, cs.Prelude, cs.SecondChannel, cs.CloseAck))
+		if closeAck {
+			r.Count("faults_directly_after_a_close_packet", 1)
+		}
 	}
 	// minimum and maximum number of deliverable packages
 	minPk, maxPk := 0, 0
@@ -221,7 +272,7 @@ func c14Run(c *Ctx, cs c14Case, ref []string) {
 	if cs.ReadTimeout == 0 {
 		// structural: wait until the reader cannot progress, then drain
 		gid = waitReaderGID(k.tr)
-		st, ok := readerQuiescent(gid, 20*time.Second)
+		st, ok := c14Quiesce(k.tr, gid, 20*time.Second)
 		if !ok {
 			r.Inconclusive("reader goroutine still %q 20 s after the fault (case %s offset %d style %s)", st, cs.Resp, cs.Offset, cs.Style)
 			return
@@ -242,7 +293,7 @@ func c14Run(c *Ctx, cs c14Case, ref []string) {
 			if err != nil {
 				if ctx.Err() != nil {
 					gid := waitReaderGID(k.tr)
-					st, ok := readerQuiescent(gid, 5*time.Second)
+					st, ok := c14Quiesce(k.tr, gid, 5*time.Second)
 					cancel()
 					if ok {
 						fail("no-error-after-failure", fmt.Sprintf("no error within read timeout + 10 s; the reader goroutine is %s", st), got)
@@ -265,7 +316,7 @@ func c14Run(c *Ctx, cs c14Case, ref []string) {
 		// ready with it is taken now and counted (the order of packages and
 		// error is judged in the structural leg, where it is a function of
 		// the input).
-		if st, ok := readerQuiescent(waitReaderGID(k.tr), 20*time.Second); !ok {
+		if st, ok := c14Quiesce(k.tr, waitReaderGID(k.tr), 20*time.Second); !ok {
 			r.Inconclusive("reader goroutine still %q 20 s after the error was delivered", st)
 			return
 		}
@@ -309,12 +360,17 @@ func c14Run(c *Ctx, cs c14Case, ref []string) {
 		who, ch = "the consumer of the second channel", ch1
 	}
 	if cs.ReadTimeout == 0 {
-		st, ok := readerQuiescent(gid, 20*time.Second)
+		st, ok := c14Quiesce(k.tr, gid, 20*time.Second)
 		if !ok {
 			r.Inconclusive("reader goroutine still %q 20 s after the first consumer was served", st)
 			return
 		}
 		again := drainChannel(ch, k.ctx)
+		if closeAck && len(again.Types) > 0 && again.Types[0] == "*tds.HeaderOnlyPackage" {
+			// the teardown confirmation itself is what that channel was sent
+			again.Dumps, again.Types = again.Dumps[1:], again.Types[1:]
+			r.Count("close_confirmations_delivered", 1)
+		}
 		if len(again.Dumps) > 0 {
 			fail("package-after-the-error", fmt.Sprintf("%s received packages %v after the failure had been reported", who, again.Types), got)
 			return
@@ -327,13 +383,17 @@ func c14Run(c *Ctx, cs c14Case, ref []string) {
 	} else {
 		ctx, cancel := context.WithTimeout(context.Background(), time.Duration(cs.ReadTimeout)*time.Second+10*time.Second)
 		pkg, err := ch.NextPackage(ctx, true)
+		if _, isHdr := pkg.(*tds.HeaderOnlyPackage); closeAck && err == nil && isHdr {
+			r.Count("close_confirmations_delivered", 1)
+			pkg, err = ch.NextPackage(ctx, true)
+		}
 		expired := ctx.Err() != nil
 		cancel()
 		switch {
 		case err == nil:
 			fail("package-after-the-error", fmt.Sprintf("%s received %T after the failure had been reported", who, pkg), got)
 		case expired:
-			st, ok := readerQuiescent(waitReaderGID(k.tr), 5*time.Second)
+			st, ok := c14Quiesce(k.tr, waitReaderGID(k.tr), 5*time.Second)
 			if ok {
 				fail("no-error-for-later-consumer", fmt.Sprintf("%s got no error within read timeout + 10 s; the reader goroutine is %s", who, st), got)
 			} else {
@@ -403,7 +463,7 @@ func c14WriteLeg(c *Ctx) {
 
 func runC14(c *Ctx) {
 	r := c.R
-	r.Rule = "response catalogue × 3 packetisations × EVERY byte offset 0..len(stream) × fault styles {EOF alone, EOF returned together with the last data, reset-style error, timeout-style net.Error} with PacketReadTimeout=0 (structural verdict once the reader goroutine is quiescent), plus sampled offsets with PacketReadTimeout=1 and a live consumer; plus transport write failures at call 1..5 after 0..512 bytes; non-trivial = fault offset strictly inside the stream; distinct = (response, cuts, offset, style)"
+	r.Rule = "response catalogue × 3 packetisations × EVERY byte offset 0..len(stream) × fault styles {EOF alone, EOF returned together with the last data, reset-style error, timeout-style net.Error, io.ErrUnexpectedEOF, an error wrapping io.EOF} with PacketReadTimeout=0 (structural verdict once the reader goroutine is quiescent), plus sampled offsets with PacketReadTimeout=1 and a live consumer; plus transport write failures at call 1..5 after 0..512 bytes; non-trivial = fault offset strictly inside the stream; distinct = (response, cuts, offset, style)"
 	r.TrustedBase = []string{"harness/srv encoder, harness/xport transport, goroutine-dump monitor (reader state)", "fault-free delivery of the same stream as reference"}
 	r.Assumptions = []string{"consumption starts when the reader goroutine is quiescent (exited or parked in a channel send), so the observed sequence is a function of (stream, offset, style) and not of the consumer/reader race in NextPackage's select", "(n>0, io.EOF) is a legal io.Reader result (crypto/tls returns it when close_notify follows the data)"}
 	if c.Replay != nil {
@@ -460,13 +520,28 @@ func runC14(c *Ctx) {
 			n := len(xport.Concat(pk))
 			base := c14Case{Resp: resp.Name, BodyHex: hex.EncodeToString(body), Bounds: bounds, Kinds: resp.Kinds, Cuts: cu.cuts, CutClass: cu.name}
 			for off := 0; off <= n; off++ {
-				for _, st := range []string{"eof", "eof-with-data", "reset", "timeout"} {
+				for _, st := range []string{"eof", "eof-with-data", "reset", "timeout", "unexpected-eof", "wrapped-eof"} {
 					cs := base
 					cs.Offset, cs.Style = off, st
 					cs.Chunk = []string{"one", "per-packet"}[off%2]
 					cs.Prelude = off%4 == 3
 					cs.SecondChannel = off%4 == 1
+					cs.CloseAck = cs.SecondChannel // effective where the fault is at a packet boundary
 					jobs = append(jobs, job{cs, refOut.d.Dumps})
+				}
+			}
+			// every packet boundary once more with a second channel whose
+			// teardown confirmation is the last packet before the fault
+			bo := 0
+			for pi := 0; pi <= len(pk); pi++ {
+				for _, st := range []string{"eof", "eof-with-data", "reset", "timeout"} {
+					cs := base
+					cs.Offset, cs.Style, cs.Chunk = bo, st, "per-packet"
+					cs.SecondChannel, cs.CloseAck = true, true
+					jobs = append(jobs, job{cs, refOut.d.Dumps})
+				}
+				if pi < len(pk) {
+					bo += len(pk[pi])
 				}
 			}
 			// timed leg: sampled offsets with a 1 s read timeout
@@ -477,10 +552,11 @@ func runC14(c *Ctx) {
 			for i := 0; i < samples; i++ {
 				cs := base
 				cs.Offset = rnd.Range(0, n)
-				cs.Style = []string{"eof", "eof-with-data", "reset", "timeout"}[i%4]
+				cs.Style = []string{"eof", "eof-with-data", "reset", "timeout", "unexpected-eof", "wrapped-eof"}[i%6]
 				cs.ReadTimeout = 1
 				cs.Chunk = "one"
 				cs.SecondChannel = i%2 == 1
+				cs.CloseAck = i%4 == 1
 				jobs = append(jobs, job{cs, refOut.d.Dumps})
 			}
 			r.SetAdd("responses", resp.Name+"/"+cu.name)
